@@ -17,6 +17,9 @@ func acquireSlot() {
 	if n <= 0 {
 		return
 	}
+	if n > 8 {
+		n = 8
+	}
 	dir := os.TempDir()
 	for {
 		for i := 0; i < n; i++ {
